@@ -37,21 +37,21 @@ package processorretry
 //@   ensures[frame]        forall(q, string, q != APIStream.GetSequenceID() ==> (hasR(p, APIStream, q) <==> old(hasR(p, APIStream, q))) && valR(p, APIStream, q) == old(valR(p, APIStream, q)))
 
 // ---------------------------------------------------------------- construction: the bound is the configured number of attempts
-//@ ghost func pInt(m map[string]stream_types.ProcessorParam, name string) int
-//@ ghost func pSeconds(m map[string]stream_types.ProcessorParam, name string) int64
-//@ ghost func pFloat(m map[string]stream_types.ProcessorParam, name string) real
+//@ ghost func rpInt(m map[string]stream_types.ProcessorParam, name string) int
+//@ ghost func rpSeconds(m map[string]stream_types.ProcessorParam, name string) int64
+//@ ghost func rpFloat(m map[string]stream_types.ProcessorParam, name string) real
 //@ extern utils.ExtractIntParam
 //@   params metaData, paramName, out
 //@   modifies *out
-//@   ensures result == nil ==> *out == pInt(metaData, paramName)
+//@   ensures result == nil ==> *out == rpInt(metaData, paramName)
 //@ extern utils.ExtractDurationInSecParam
 //@   params metaData, paramName, out
 //@   modifies *out
-//@   ensures result == nil ==> *out == pSeconds(metaData, paramName) * 1000000000
+//@   ensures result == nil ==> *out == rpSeconds(metaData, paramName) * 1000000000
 //@ extern utils.ExtractFloat64Param
 //@   params metaData, paramName, out
 //@   modifies *out
-//@   ensures result == nil ==> *out == pFloat(metaData, paramName)
+//@   ensures result == nil ==> *out == rpFloat(metaData, paramName)
 //@ pure environment.GetLuaRetryRequestTimeout
 //@ pure retryProcessor).getCooldownDuration
 
@@ -60,5 +60,5 @@ package processorretry
 //@   requires p != nil && p.metaData != nil
 //@   modifies p.logger, p.attempts, p.cooldown, p.cooldownMultiplier, now
 //@   loop 1 modifies nothing
-//@   ensures[bound-is-the-configured-attempts] result == nil ==> p.attempts == pInt(p.metaData.Parameters, "attempts")
-//@   ensures[configured-cooldown] result == nil ==> p.cooldown == pSeconds(p.metaData.Parameters, "cooldown_between_attempts_seconds") * 1000000000 && p.cooldown >= 0 && p.cooldownMultiplier == pFloat(p.metaData.Parameters, "cooldown_multiplier")
+//@   ensures[bound-is-the-configured-attempts] result == nil ==> p.attempts == rpInt(p.metaData.Parameters, "attempts")
+//@   ensures[configured-cooldown] result == nil ==> p.cooldown == rpSeconds(p.metaData.Parameters, "cooldown_between_attempts_seconds") * 1000000000 && p.cooldown >= 0 && p.cooldownMultiplier == rpFloat(p.metaData.Parameters, "cooldown_multiplier")
